@@ -391,12 +391,17 @@ type Ent struct {
 // Snapshot walks the sandbox.
 func Snapshot(root string) []Ent {
 	out := []Ent{}
+	listed := map[string]bool{}
 	_ = filepath.WalkDir(root, func(p string, de fs.DirEntry, err error) error {
 		if p == root {
 			return nil
 		}
 		rel, _ := filepath.Rel(root, p)
 		rel = filepath.ToSlash(rel)
+		if listed[rel] { // a directory that can not be read is reported a second time with the error
+			return nil
+		}
+		listed[rel] = true
 		e := Ent{P: rel, K: "o", M: -1, D: emptyDoc()}
 		if err != nil {
 			out = append(out, e)
